@@ -431,6 +431,12 @@ def _dbase(atom, x):
         if atom[1] == "log":
             (a,) = atom[2]
             return div(diff(unkey(a), x), unkey(a))
+        if atom[1] == "abs" and len(atom[2]) == 1:
+            (a,) = atom[2]
+            return mul(fn("sign", unkey(a)), diff(unkey(a), x))  # d|u| = sign(u) du
+        if atom[1] in ("maximum", "minimum", "clip") and any(depends(unkey(a), x) for a in atom[2]):
+            # piecewise: the derivative exists but is not a term of this fragment - keep it as an explicit marker
+            return fn("d/d" + x, atom_poly(atom))
         if any(depends(unkey(a), x) for a in atom[2]):
             raise NFError(f"cannot differentiate opaque {atom[1]} with respect to {x}")
     return {}
